@@ -69,14 +69,14 @@ def rust_module(idx, d, skel):
     w('  fn __snap(&self) -> String { let v: Vec<String> = vec![%s]; v.join("/") }' % snap)
     af = 'async fn' if is_async else 'fn'
     aw = ' rt::Susp(a.susp).await;' if is_async else ''
-    for g in hooks['guards'] + hooks['unless']:
+    for g in sorted(set(hooks['guards'] + hooks['unless'])):
         kind = 'g' if g in hooks['guards'] else 'u'
         val = 'rt::guard_val(&a)' if kind == 'g' else 'rt::unless_val(&a)'
         plarg = ', pl: &P' if hpl.get(g) else ''
         plv = 'Some(pl.0)' if hpl.get(g) else 'None'
         w('  %s %s(&self, ctx: &%s%s) -> bool { let (r, a) = rt::begin("%s", "%s", rt::sname::<S>(), self.__snap(), rt::ctx_id(ctx), %s);%s rt::check_panic(&a, "%s"); rt::end(r); %s }'
           % (af, g, ctxty, plarg, kind, g, plv, aw, g, val))
-    for cb in hooks['before'] + hooks['after']:
+    for cb in sorted(set(hooks['before'] + hooks['after'])):
         kind = 'b' if cb in hooks['before'] else 'a'
         plarg = ', pl: &P' if hpl.get(cb) else ''
         plv = 'Some(pl.0)' if hpl.get(cb) else 'None'
